@@ -311,6 +311,19 @@ def asm_flags(R, f, e, nm):
             cons.append((o, m.group(2)))
     allowed = CARRY if op == "add" else (CARRY | OVERFLOW)
     bad = [o for o, cc in cons if cc not in allowed]
+    if "saturating" in nm:
+        # the value substituted on overflow is the type's maximum: all ones over the operand's full width
+        width = 64 if "u64" in nm else 32
+        sat = []
+        for x in e.node.get("inputs", []):
+            cv = f.is_const(x)
+            if cv is not None:
+                sat.append(cv & (2 ** 64 - 1) if cv < 0 else cv)
+        imm = [int(m_, 16) for m_ in re.findall(r"\$0x([0-9A-Fa-f]+)", e.node.get("asm", ""))]
+        want = 2 ** width - 1
+        vals = sat + imm
+        R.check(bool(vals) and all(v == want for v in vals), "ASM-FLAG", "saturation-value:%s" % nm, loc, "the value moved in on overflow is 0x%X" % want,
+                "the saturation value of %s is %s, the maximum of its type is 0x%X: on overflow the assembly variant returns another value than the other variants" % (nm, [hex(v) for v in vals], want))
     R.check(len(cons) == 1 and not bad, "ASM-FLAG", "flag:%s" % nm, loc, "the flags are consumed once, by `%s` (%s)" % (cons[0][0] if cons else "?", "carry" if op == "add" else "carry = overflow after mul"),
             "the overflow of an unsigned %s is read with %s: for an unsigned add the carry flag is the overflow (the overflow flag is the signed overflow: MAX + 1 is accepted and 0x7f..f + 1 refused)" % (op, [o for o, cc in cons]))
 
@@ -431,6 +444,11 @@ def convert(R, P):
         g = [f.show(f.d(c)) + ("" if p else " [false]") for c, p, b in RU.guards(f, e, dom)]
         gs.append(g)
     ok = ok and any(any("new_frequency < old_frequency" in x and "false" not in x for x in g) and any("frequency_remainder == 0" in x and "false" not in x for x in g) for g in gs)
+    # every return has passed the `remainder != NULL` block: no fast path leaves *remainder unwritten
+    rt = [b.id for b in f.blocks.values() if b.cond is not None and f.show(RU.uncast(f, (RU.cmp_norm(f, b.cond, True) or (None,))[0]) if RU.cmp_norm(f, b.cond, True) else None) == "remainder"]
+    okr = bool(rt) and all(rt[0] in dom.get(r_.blk, ()) for r_ in f.returns())
+    R.check(okr, "CONVERT", "remainder-written-on-every-path", "%s()" % f.name, "the `remainder != NULL` block (which zeroes *remainder) dominates every return",
+            "a return of aws_timestamp_convert_u64 is reached without passing the block that initialises *remainder: for that case (equal frequencies) the caller's remainder keeps a stale value")
     R.check(ok, "CONVERT", "remainder-rule", "%s()" % f.name, "remainder zeroed, then set only when new < old and old % new == 0", "the remainder rule's guards are %s" % gs)
     vals = []
     for e in st_rem:
@@ -456,6 +474,8 @@ def convert(R, P):
 
 MUTANTS = [
     {"name": "ctz64-int-mask", "file": "include/aws/common/math.fallback.inl", "expect": "SHIFT", "old": "        if (n & (1ULL << idx)) {", "new": "        if (n & (1 << idx)) {"},
+    {"name": "asm-mul-saturates-to-32-bit-ones", "file": "include/aws/common/math.gcc_x64_asm.inl", "expect": "ASM-FLAG", "old": "[saturate] \"rm\"(~0LL)\n            : /* clobbers: cc */ \"cc\");\n    (void)rdx;", "new": "[saturate] \"rm\"(~0U)\n            : /* clobbers: cc */ \"cc\");\n    (void)rdx;"},
+    {"name": "convert-fast-path-skips-remainder", "file": "include/aws/common/clock.inl", "expect": "CONVERT", "old": "    AWS_FATAL_ASSERT(old_frequency > 0 && new_frequency > 0);\n", "new": "    AWS_FATAL_ASSERT(old_frequency > 0 && new_frequency > 0);\n    if (old_frequency == new_frequency) {\n        return ticks;\n    }\n"},
     {"name": "clz-size-calls-the-builtin-directly", "file": "include/aws/common/math.gcc_builtin.inl", "expect": "SPEC", "old": "AWS_STATIC_IMPL size_t aws_clz_size(size_t n) {\n#if SIZE_BITS == 64\n    return aws_clz_u64(n);\n#else\n    return aws_clz_u32(n);\n#endif", "new": "AWS_STATIC_IMPL size_t aws_clz_size(size_t n) {\n    return __builtin_clzl(n);"},
     {"name": "fraction-scaled-by-truncated-ratio", "file": "include/aws/common/clock.inl", "expect": "CONVERT", "old": "    uint64_t new_ticks_remainder_part = aws_mul_u64_saturating(old_remainder, new_frequency) / old_frequency;", "new": "    uint64_t new_ticks_remainder_part = (new_frequency >= old_frequency) ? aws_mul_u64_saturating(old_remainder, new_frequency / old_frequency) : aws_mul_u64_saturating(old_remainder, new_frequency) / old_frequency;"},
     {"name": "asm-add-reads-signed-overflow", "file": "include/aws/common/math.gcc_x64_asm.inl", "expect": "ASM-FLAG", "old": "    __asm__(\"addq %[argb], %[arga]\\n\" /* [arga] = [arga] + [argb] */\n            \"setc %[flag]\\n\"", "new": "    __asm__(\"addq %[argb], %[arga]\\n\" /* [arga] = [arga] + [argb] */\n            \"seto %[flag]\\n\""},
